@@ -306,5 +306,59 @@ theorem sound_write19 (mon : IOMon) (m : Msg) (o : WriteObs) (c : Clause) (h : (
   | array => simp [hk] at h
   | other => simp [hk] at h
 
+/-! ## concurrent writers -/
+
+/-- the property on the stream after concurrent writes: `Write` returned in every goroutine, every line is
+a JSON value of its own, and every message that goes out on its own is one of them, as given -/
+def P_concurrentFramed (outCap : Nat) (msgs : List Msg) (o : CwObs) : Prop :=
+  ∃ l, o = .lines l ∧ (∀ x ∈ l, x.isSome = true) ∧
+    ∀ m ∈ msgs, onItsOwn outCap m = true → ∃ v, some v ∈ l ∧ ∃ a, proj v = some a ∧ proj (encodeMsg m) = some a
+
+theorem sound_cw (outCap : Nat) (msgs : List Msg) (o : CwObs) (c : Clause) (h : cwMonitor outCap msgs o = some c) :
+    ¬ P_concurrentFramed outCap msgs o := by
+  rintro ⟨l, rfl, hall, hmem⟩
+  simp only [cwMonitor] at h
+  have h1 : l.any Option.isNone = false := by
+    rw [List.any_eq_false]; intro x hx; have := hall x hx; cases x <;> simp at this ⊢
+  simp only [h1] at h
+  cases hf : msgs.find? (fun m => onItsOwn outCap m && !l.any (lineIs m)) with
+  | none => simp [hf] at h
+  | some m =>
+    have hm := List.mem_of_find?_eq_some hf
+    have hpr := List.find?_some hf
+    simp only [Bool.and_eq_true, Bool.not_eq_true'] at hpr
+    obtain ⟨v, hv, a, h1, h2⟩ := hmem m hm hpr.1
+    have : l.any (lineIs m) = true := by
+      rw [List.any_eq_true]
+      exact ⟨some v, hv, by simp [lineIs, wireDiff_none_of_proj v (encodeMsg m) a h1 h2]⟩
+    rw [this] at hpr; exact absurd hpr.2 (by simp)
+
+/-! ## `LoggingTransport` -/
+
+/-- the log of a logging connection: one entry per message that passed, in order, each carrying an encoding
+that agrees with the message in id, method, params, result and error -/
+def P_logShows (passed : List Passed) (o : LogObs) : Prop :=
+  ∃ l, o = .entries l ∧ l.length = passed.length ∧
+    ∀ (i : Nat) (h1 : i < passed.length) (h2 : i < l.length), entryIs passed[i] l[i] = true
+
+theorem entriesAre_of_pointwise : ∀ (ps : List Passed) (l : List (Option LogEntry)), l.length = ps.length →
+    (∀ (i : Nat) (h1 : i < ps.length) (h2 : i < l.length), entryIs ps[i] l[i] = true) → entriesAre ps l = true
+  | [], [], _, _ => rfl
+  | [], _ :: _, hl, _ => by simp at hl
+  | _ :: _, [], hl, _ => by simp at hl
+  | p :: ps, e :: es, hl, h => by
+    have h0 := h 0 (by simp) (by simp)
+    have ht := entriesAre_of_pointwise ps es (by simpa using hl)
+      (fun i h1 h2 => by
+        have := h (i + 1) (by simpa using h1) (by simpa using h2)
+        simpa only [List.getElem_cons_succ] using this)
+    simp only [List.getElem_cons_zero] at h0
+    simp [entriesAre, h0, ht]
+
+theorem sound_log (passed : List Passed) (o : LogObs) (c : Clause) (h : logMonitor passed o = some c) :
+    ¬ P_logShows passed o := by
+  rintro ⟨l, rfl, hl, hf⟩
+  simp [logMonitor, entriesAre_of_pointwise passed l hl hf] at h
+
 end Mon
 end Wire
